@@ -58,6 +58,8 @@ var handCorpus = []string{
 	// assignment without let to a name that only an outer context binds
 	`<% n0 = n0 + 1 %><%= n0 %>|<%= for (i) in [1, 2] { %><% n0 = n0 + i %><%= n0 %>,<% } %>|<%= n0 %>`,
 	`<% let f = fn() { n0 = n0 + 5  return n0 } %><%= f() %><%= f() %>|<%= n0 %>`,
+	// array + x computed from an array of the (shared) context that has spare capacity: a new array every time
+	`<% let ys = sx + gid %><%= ys %>|<%= sx %>|<%= for (v) in [1, 2, 3] { %><%= sx + v %>;<% } %>|<% let a = sx + 1 %><% let b = sx + 2 %><%= a %><%= b %>`,
 	`<%= 1 / 0 %>`,
 	`<%= 1 +`,
 	`<% if (true) { %>open`,
